@@ -218,10 +218,49 @@ def _gen_p2s(rng, tier):
     fl = 1 / fps
     md = rng.choice([0, 0, 0, 1000 * fl, 2000 * fl, 1500 * fl, 30, 100, 2 * fl * 1000 * (1 + 2 ** -52),
                      (3 * fl - 1 * fl) * 1000, (5 * fl - 2 * fl) * 1000])
-    return {'op': 'p2s', 'input': {'fps': H(fps), 'min_dur_ms': H(md), 'mmp': rng.choice([0, 21, 60]),
+    mmp = rng.choice([0, 1, 2, 3, 21, 60])
+    if onsets is not None and rng.random() < 0.3:
+        # small pitch offset, the top columns silent: a decoder that confuses absolute and relative pitch
+        # columns reads another (existing) column instead of running off the matrix
+        mmp = rng.randint(1, 2)
+        if P <= mmp + 1:
+            P = mmp + 2 + rng.randint(0, 2)
+            frames = [r_[:P] + [0] * (P - len(r_)) for r_ in frames]
+            onsets = [r_[:P] + [0] * (P - len(r_)) for r_ in onsets]
+            if offsets is not None:
+                offsets = [r_[:P] + [0] * (P - len(r_)) for r_ in offsets]
+        for m_ in (frames, onsets) + ((offsets,) if offsets is not None else ()):
+            for r_ in m_:
+                for q in range(P - mmp, P):
+                    r_[q] = 0
+    vv = None
+    if rng.random() < 0.35:
+        vv = [[rng.randrange(len(VV_PALETTE)) for _ in range(P)] for _ in range(T)]
+    return {'op': 'p2s', 'input': {'fps': H(fps), 'min_dur_ms': H(md), 'mmp': mmp, 'vv': vv,
                                    'T': T, 'P': P, 'frames': [mask(r_) for r_ in frames],
                                    'onsets': None if onsets is None else [mask(r_) for r_ in onsets],
                                    'offsets': None if offsets is None else [mask(r_) for r_ in offsets]}}
+
+
+VV_PALETTE = [0.0, 0.25, 0.5, 0.8, 1.0, 1.5]
+
+
+def _gen_grid_on(rng, tier):
+    """roll -> notes -> (active, onsets, onset_velocities) -> notes, non-default pitch offset; no model side"""
+    fps = rng.choice([8.0, 16.0, 32.0])
+    T = rng.randint(2, 24)
+    P = rng.randint(1, 6)
+    m = _gen_matrix(rng, T, P)
+    mn = rng.choice([1, 2, 21, 60, 100])
+    if rng.random() < 0.4:
+        mn = rng.randint(1, 2)
+        P = max(P, mn + 2)
+        m = [(r_ + [0] * P)[:P] for r_ in m]
+        for r_ in m:
+            for q in range(P - mn, P):
+                r_[q] = 0
+    return {'op': 'grid_on', 'input': {'fps': H(fps), 'mn': mn, 'T': T, 'P': P,
+                                       'frames': [mask(r_) for r_ in m], 'vel': rng.random() < 0.5}}
 
 
 def _gen_o2s(rng, tier):
@@ -272,6 +311,7 @@ def cases(rng, tier, n=None):
     out += [_gen_p2s(rng, tier) for _ in range(ns[1])]
     out += [_gen_o2s(rng, tier) for _ in range(ns[2])]
     out += [_gen_grid(rng, tier) for _ in range(ns[3])]
+    out += [_gen_grid_on(rng, tier) for _ in range((60 * k) if n is None else max(1, n // 8))]
     if n is None:
         # exhaustive small scopes of the decoder (every column, every prediction column)
         if thorough:
@@ -397,9 +437,25 @@ def impl(case):
             kw['onset_predictions'] = _mat(a['onsets'], T, P)
         if a['offsets'] is not None:
             kw['offset_predictions'] = _mat(a['offsets'], T, P)
-        seq = sequences_lib.pianoroll_to_note_sequence(_mat(a['frames'], T, P), F(a['fps']), F(a['min_dur_ms']),
-                                                       min_midi_pitch=a['mmp'], **kw)
-        return ['OK'] + _notes_out(seq, lambda n: (n[2], n[0])) + [_times(seq)]
+        if a.get('vv') is not None:
+            kw['velocity_values'] = _vvmat(a['vv'])
+        try:
+            seq = sequences_lib.pianoroll_to_note_sequence(_mat(a['frames'], T, P), F(a['fps']), F(a['min_dur_ms']),
+                                                           min_midi_pitch=a['mmp'], **kw)
+        except Exception as e:  # noqa: the decoder has no documented exception on rectangular 0/1 input
+            return _exc(e)
+        return ['OK'] + _notes_out(seq, lambda n: (n[2], n[0])) + [_times(seq, True)]
+    if op == 'grid_on':
+        T, P, fps, mn = a['T'], a['P'], F(a['fps']), a['mn']
+        try:
+            seq1 = sequences_lib.pianoroll_to_note_sequence(_mat(a['frames'], T, P), fps, 0, min_midi_pitch=mn)
+            pr = sequences_lib.sequence_to_pianoroll(seq1, fps, mn, mn + P - 1, onset_window=0)
+            kw = {'velocity_values': pr.onset_velocities} if a['vel'] else {}
+            seq2 = sequences_lib.pianoroll_to_note_sequence(pr.active, fps, 0, min_midi_pitch=mn,
+                                                            onset_predictions=pr.onsets, **kw)
+        except Exception as e:  # noqa
+            return _exc(e)
+        return ['OK', _times(seq1)[1], _times(seq2, True)[1]]
     if op == 'o2s':
         T, P = a['T'], a['P']
         seq = sequences_lib.pianoroll_onsets_to_note_sequence(_mat(a['onsets'], T, P), F(a['fps']),
@@ -416,9 +472,14 @@ def impl(case):
     raise ValueError(op)
 
 
-def _times(seq):
-    """exact times for the oracle (not compared with the model, see equal())"""
-    return [H(seq.total_time), sorted([int(n.pitch), H(n.start_time), H(n.end_time)] for n in seq.notes)]
+def _times(seq, with_velocity=False):
+    """exact times (and velocities) for the oracle (not compared with the model, see equal())"""
+    return [H(seq.total_time), sorted([int(n.pitch), H(n.start_time), H(n.end_time)] +
+                                      ([int(n.velocity)] if with_velocity else []) for n in seq.notes)]
+
+
+def _vvmat(vv):
+    return np.array([[VV_PALETTE[k] for k in row] for row in vv], dtype=np.float32)
 
 
 def equal(case, a, b):
@@ -524,6 +585,12 @@ def oracle(case, io):
     if io[0] != 'OK':
         if op == 'grid':
             return {'kind': 'grid-roundtrip-raises', 'fps': F(a['fps']), 'exc': io[1]}
+        if op == 'grid_on' and io[0] == 'EXC':
+            return {'kind': 'onset-roundtrip-raises', 'fps': F(a['fps']), 'min_midi_pitch': a['mn'], 'exc': io[1]}
+        if op == 'p2s' and io[0] == 'EXC':
+            # rectangular 0/1 matrices of equal shape: the decoder must not raise
+            return {'kind': 'decoder-raises', 'fps': F(a['fps']), 'min_midi_pitch': a['mmp'], 'exc': io[1],
+                    'onsets': a['onsets'] is not None, 'velocity_values': a.get('vv') is not None}
         if op == 's2p' and io[0] == 'EXC':
             # a well-formed sequence in a plain configuration must convert: every velocity within max_velocity,
             # every note inside total_time, known onset mode, ANY onset delay, occupancy off, overlapping onsets
@@ -545,6 +612,8 @@ def oracle(case, io):
         fr = [unmask(m, P) for m in a['frames']]
         on = None if a['onsets'] is None else [unmask(m, P) for m in a['onsets']]
         off = None if a['offsets'] is None else [unmask(m, P) for m in a['offsets']]
+        from note_seq import sequences_lib
+        vvm = None if a.get('vv') is None else _vvmat(a['vv'])
         exp = []
         for p in range(P):
             f = [bool(fr[i][p]) or (on is not None and bool(on[i][p])) for i in range(T)]
@@ -554,13 +623,22 @@ def oracle(case, io):
             for (s, e) in _expected_spans(f, o):
                 st, et = s * fl, e * fl
                 if (et - st) * 1000 >= md:
-                    exp.append([p + a['mmp'], H(st), H(et)])
+                    # velocity: the default 70, or the value predicted for this pitch in the note's first frame
+                    # (velocity_values are only read together with onset predictions)
+                    vel = 70
+                    if vvm is not None and on is not None:
+                        vel = sequences_lib._unscale_velocity(vvm[s, p], 80, 10)
+                    exp.append([p + a['mmp'], H(st), H(et), int(vel)])
         exp.sort()
         tot, got = io[3]
         if got != exp:
             missing = [x for x in exp if x not in got]
             extra = [x for x in got if x not in exp]
+            if [x[:3] for x in got] == [x[:3] for x in exp]:
+                return {'kind': 'decoder-velocity-mismatch', 'fps': fps, 'min_midi_pitch': a['mmp'],
+                        'expected': [x for x in exp if x not in got][:3], 'got': extra[:3]}
             return {'kind': 'decoder-runs-mismatch', 'fps': fps, 'onsets': on is not None, 'offsets': off is not None,
+                    'min_midi_pitch': a['mmp'],
                     'missing': [[x[0], F(x[1]), F(x[2])] for x in missing[:3]],
                     'extra': [[x[0], F(x[1]), F(x[2])] for x in extra[:3]]}
         if F(tot) != (T + 1) * fl:
@@ -580,6 +658,19 @@ def oracle(case, io):
         return None
     if op == 'grid':
         return _oracle_grid(a, io)
+    if op == 'grid_on':
+        # power-of-two frame rate, onset window 0: decoding the re-encoded roll with its own onsets roll as onset
+        # predictions (and its onset velocities) gives back the same notes
+        n1, n2 = io[1], io[2]
+        if [x[:3] for x in n2] != n1:
+            return {'kind': 'onset-roundtrip-notes', 'fps': F(a['fps']), 'min_midi_pitch': a['mn'],
+                    'expected': len(n1), 'got': len(n2),
+                    'missing': [[x[0], F(x[1]), F(x[2])] for x in n1 if x not in [y[:3] for y in n2]][:3]}
+        from note_seq import sequences_lib
+        want = int(sequences_lib._unscale_velocity(np.float32(70 / 127.), 80, 10)) if a['vel'] else 70
+        if any(x[3] != want for x in n2):
+            return {'kind': 'onset-roundtrip-velocity', 'fps': F(a['fps']), 'min_midi_pitch': a['mn'], 'expected': want}
+        return None
 
 
 def _oracle_grid(a, io):
@@ -713,7 +804,7 @@ def nontrivial(case, io):
         return any(io[2])
     if op in ('p2s', 'o2s'):
         return len(io[2]) > 0
-    if op == 'grid':
+    if op in ('grid', 'grid_on'):
         return any(a['frames'])
     return False
 
